@@ -159,8 +159,23 @@ func runC07(c *core.Ctx, idx int) {
 		s.firedPoint, s.lastVetoOn = "", ""
 		var opErrs []error
 		failedOp := -1
-		ctx := boltz.NewMutateContext(context.Background())
+		var ctx boltz.MutateContext = boltz.NewMutateContext(context.Background())
+		// context routes: actions may be registered on the context the transaction was opened with, on a system
+		// context derived inside the body, or the transaction may be opened with a system context
+		route := 0
+		if in != nil {
+			route = (in.n + len(ops)) % 3
+		} else {
+			route = len(ops) % 3
+		}
+		if route == 2 {
+			ctx = boltz.NewSystemMutateContext(ctx)
+		}
 		body := func(ctx boltz.MutateContext) error {
+			reg := ctx
+			if route == 1 {
+				reg = ctx.GetSystemContext()
+			}
 			// (re)arm per attempt: bbolt's Batch may run the body twice
 			s.hookCalls, s.preCalls = 0, 0
 			s.failAt, s.vetoAt = 0, 0
@@ -175,7 +190,7 @@ func runC07(c *core.Ctx, idx int) {
 				case "precommit":
 					for i := 0; i < 3; i++ {
 						i := i
-						ctx.AddPreCommitAction(func(boltz.MutateContext) error {
+						reg.AddPreCommitAction(func(boltz.MutateContext) error {
 							if i == in.n {
 								return errPreCommit
 							}
@@ -184,7 +199,8 @@ func runC07(c *core.Ctx, idx int) {
 					}
 				}
 			}
-			ctx.AddCommitAction(func() { s.commitActs.Add(1) })
+			reg.AddCommitAction(func() { s.commitActs.Add(1) })
+			c.Cover("ctx_route", []string{"opened-plain", "derived-system", "opened-system"}[route])
 			for i := range ops {
 				if in != nil && in.kind == "caller" && in.n == i {
 					return errCaller
